@@ -410,6 +410,7 @@ func CheckC14(e *Env) int {
 	progs = append(progs, lateImportProgs()...)
 	progs = append(progs, inventedParamNameFamily()...)
 	progs = append(progs, paramLocalCollisionFamily()...)
+	progs = append(progs, dirVsPackageNameFamily()...)
 	results := RunPool(e, progs, PoolOpts{Execute: true, Name: "c14"})
 	byKey := map[key]*ProgResult{}
 	for _, pr := range results {
